@@ -163,7 +163,9 @@ def run(idx, rep, tier):
         kp = call.params[2] if len(call.params) > 2 else None
         ok = any(kp in [ast.unparse(x) for x in c.args] or any(ast.unparse(kw.value) == kp for kw in c.keywords) for c in df.calls(call.node)) if kp else False
         rep.decide(ok, "base-case", f"{cname}.__call__", "forwards the offset k to the routine" if ok else "drops the offset k", detail="" if ok else "k", locs=[idx.loc(call.module, call.node)])
+    probe_coverage(idx, rep)
     rep.floor("k-guard", 7)
+    rep.floor("probe-coverage", 1)
     rep.floor("forwarded", 5)
     rep.floor("rule-algebra", 5)
     rep.floor("trace-rule", 2)
@@ -171,7 +173,58 @@ def run(idx, rep, tier):
     rep.explanation = ("Dominance / dependence / idiom checks on every diag and trace rule: refusal of k != 0 where the structural formula is main-diagonal only, use of k where it "
                        "is generic, lengths n - |k|, recursive calls with unchanged (k, alg), row-major outer product / outer sum for Kronecker / KronSum, concatenation with "
                        "multiplicities, trace as product / sum of the main diagonal, monotone Exact-vs-Hutch choice in Auto.")
-    rep.assumptions += ["the blocked probing arithmetic of exact_diag (chunk/shift logic for sizes not divisible by the block) and the numerical Auto threshold are not decided"]
+    rep.assumptions += ["the shift arithmetic inside get_I_chunk_like (sizes not divisible by the block) and the numerical Auto threshold are not decided; of the probing loop only its coverage of all columns is"]
+
+
+def probe_coverage(idx, rep):
+    """the blocked probing loop of exact_diag must visit every column of the operator: range(0, <column count of A>, <block>)
+    with the block width handed to the chunk builder being the loop's own step (a shorter range silently leaves
+    entries of the diagonal at their initial 0)"""
+    cands = [f for f in idx.funcs.values() if f.short == "exact_diag" and f.parent is None]
+    if not cands:
+        rep.missing_anchor("exact_diag")
+        return
+    fi = cands[0]
+    a = fi.params[0]
+    asg = df.assignments(fi.node)
+
+    def resolve(e, depth=0):
+        if isinstance(e, ast.Name) and depth < 3 and e.id not in fi.params:
+            vals = [v for v, p, st in asg.get(e.id, []) if p is None and not isinstance(v, ast.AugAssign)]
+            if len(vals) == 1:
+                return resolve(vals[0], depth + 1)
+        return e
+
+    dims = {f"{a}.shape[{i}]" for i in ("0", "1", "-1", "-2")}
+    loops = [n for n in df.body_nodes(fi.node) if isinstance(n, ast.For) and isinstance(n.iter, ast.Call) and isinstance(n.iter.func, ast.Name) and n.iter.func.id == "range"
+             and any(isinstance(b, ast.BinOp) and isinstance(b.op, ast.MatMult) for st in n.body for b in ast.walk(st))]
+    if not loops:
+        rep.undecided("probe-coverage", "exact_diag:loop", "no range loop that multiplies the operator into probe chunks was found")
+        return
+    for lp_ in loops:
+        args = lp_.iter.args
+        loc = [idx.loc(fi.module, lp_)]
+        if len(args) != 3:
+            rep.undecided("probe-coverage", "exact_diag:loop", f"loop `{nospace(lp_.iter)}` is not of the form range(start, stop, step)", locs=loc)
+            continue
+        start, stop, step = (resolve(x) for x in args)
+        start_ok = isinstance(start, ast.Constant) and start.value == 0
+        stop_t = nospace(stop)
+        # refuted only for a reduction that applies to positive offsets as well (n - abs(k), n - k): for k > 0 the trailing
+        # columns are exactly the ones that hold the k-th diagonal; any other reduced stop is left undecided
+        kname = fi.params[1] if len(fi.params) > 1 else "k"
+        shrunk = isinstance(stop, ast.BinOp) and isinstance(stop.op, ast.Sub) and nospace(resolve(stop.left)) in dims and nospace(stop.right) in (f"abs({kname})", kname)
+        chunk_calls = [c for st in lp_.body for c in ast.walk(st) if isinstance(c, ast.Call) and isinstance(lp_.target, ast.Name) and any(isinstance(x, ast.Name) and x.id == lp_.target.id for x in c.args)]
+        step_ok = bool(chunk_calls) and any(nospace(args[2]) in [nospace(x) for x in c.args] for c in chunk_calls)
+        if not start_ok and isinstance(start, ast.Constant):
+            rep.refuted("probe-coverage", "exact_diag:loop", f"the probing loop `{nospace(lp_.iter)}` starts at {start.value}: the first columns of the operator are never probed", detail="start", locs=loc)
+        elif shrunk:
+            rep.refuted("probe-coverage", "exact_diag:loop", f"the probing loop `{nospace(lp_.iter)}` stops at {stop_t}, before the last column of the operator: the skipped columns carry entries of "
+                        "the super-diagonals (A[c-k, c] lives in column c), which stay 0", detail="stop", locs=loc)
+        elif start_ok and stop_t in dims and step_ok:
+            rep.proved("probe-coverage", "exact_diag:loop", f"`{nospace(lp_.iter)}` visits every column of {a} in blocks of the width handed to the chunk builder", locs=loc)
+        else:
+            rep.undecided("probe-coverage", "exact_diag:loop", f"coverage of `{nospace(lp_.iter)}` (start {nospace(start)}, stop {stop_t}, step {nospace(step)}) is outside the recognised form", locs=loc)
 
 
 def parents(node, stop):
